@@ -362,7 +362,13 @@ def gen_program(rnd, nfiles=None, opts=None, base=None, tries=30, charset="bk", 
             if site < 0.6:
                 files[0].stmts.insert(0, apm.link(apm.num(b)))
             elif site < 0.8:
-                files[0].stmts.insert(0, apm.dotassign(apm.num(b)))
+                d = apm.dotassign(apm.num(b))
+                d.is_base = True
+                files[0].stmts.insert(0, d)
+                if rnd.random() < 0.4:
+                    # statements that emit nothing may stand before the '. =' that sets the base: it is still the leading one
+                    files[0].stmts.insert(0, rnd.choice([apm.simple(".list"), apm.simple(".title", "some text"), apm.simple(".page"),
+                                                         apm.assign("zq9pre", apm.num(5)), apm.simple(".nlist")]))
             else:
                 f = rnd.choice(files)
                 f.stmts.insert(rnd.randrange(len(f.stmts) + 1), apm.link(apm.num(b)))
